@@ -550,6 +550,7 @@ fn main() {
         "four streams: (M) build_chunk_manifest on texts of 0..700 chars (quick) with chunk sizes 1..200 and 1200 — prose, single long words, \
          boundary characters planted at target/window edges, whitespace-heavy, full-Unicode letters/whitespace/near-miss characters; \
          (C) choose_chunk_boundary with random start/target/slack incl. calls outside the loop's precondition; \
+         (E) choose_chunk_boundary exhaustively for every text over {a . \\n space} of length <= 4 (quick) / 6 (thorough), every start < target <= len, slack 0..3; \
          (N) plan_naive_chunks on texts of 1190..6500 chars (around 1200, 1440 and 2400); \
          (P) plan_text_chunks on raw documents (paragraphs, headings, lists, rules, quotes, tables, code fences, CRLF) cut to normalized length threshold-3..+3 or free; \
          non-trivial = a manifest/plan was produced (M,N), call inside the precondition (C), normalized length >= threshold (P); distinct = blake3(input)+result");
@@ -559,7 +560,8 @@ fn main() {
         "choose-forward", "choose-backward", "choose-at-target", "choose-outside-precondition",
         "naive-some", "naive-none", "naive-none-between-chunk-and-threshold",
         "plan-below-threshold", "plan-unstructured", "plan-structured-some",
-        "plan-len-threshold-minus-1", "plan-len-threshold", "plan-len-threshold-plus-1", "predicate-tables-compared"]);
+        "plan-len-threshold-minus-1", "plan-len-threshold", "plan-len-threshold-plus-1", "predicate-tables-compared",
+        "exhaustive-small-scope-done", "structural-clause-holds"]);
 
     if args.mode == "replay" {
         let case = load_replay(args.replay_file.as_ref().expect("replay file"));
@@ -617,7 +619,7 @@ fn main() {
     for c in &corpus { run_case(c, &mut cx, &mut sum); }
 
     // ---- (M) manifest stream
-    let n_m = if th { 12000 } else { 1800 };
+    let n_m = if th { 30000 } else { 5000 };
     let ccs: &[usize] = &[1, 2, 3, 4, 5, 7, 8, 10, 16, 20, 31, 32, 33, 40, 50, 64, 100, 159, 160, 161, 165, 170, 200];
     for i in 0..n_m {
         let wide = rng.chance(1, 3);
@@ -638,7 +640,7 @@ fn main() {
     }
 
     // ---- (C) choose stream
-    let n_c = if th { 8000 } else { 1200 };
+    let n_c = if th { 20000 } else { 3000 };
     for _ in 0..n_c {
         let wide = rng.chance(1, 3);
         let len = rng.usize(0, 300);
@@ -654,8 +656,30 @@ fn main() {
         run_case(&Case::Choose { text, start, target, slack }, &mut cx, &mut sum);
     }
 
+    // ---- (E) exhaustive small scope: every text over {a . \n space} up to a length, every
+    //      start < target <= len, slack 0..3, plus the manifest for chunk sizes 1..3 is covered by (M)
+    {
+        let alpha = ['a', '.', '\n', ' '];
+        let maxlen = if th { 6 } else { 4 };
+        let mut texts: Vec<String> = vec![String::new()];
+        let mut frontier = texts.clone();
+        for _ in 0..maxlen {
+            let mut next = Vec::new();
+            for t in &frontier { for c in alpha { let mut u = t.clone(); u.push(c); next.push(u); } }
+            texts.extend(next.iter().cloned());
+            frontier = next;
+        }
+        for text in &texts {
+            let n = text.len();
+            for start in 0..n { for target in start + 1..=n { for slack in 0..4 {
+                run_case(&Case::Choose { text: text.clone(), start, target, slack }, &mut cx, &mut sum);
+            } } }
+        }
+        sum.branch("exhaustive-small-scope-done");
+    }
+
     // ---- (N) naive stream
-    let n_n = if th { 1500 } else { 160 };
+    let n_n = if th { 3000 } else { 500 };
     for _ in 0..n_n {
         let wide = rng.chance(1, 3);
         let len = match rng.below(10) {
@@ -671,7 +695,7 @@ fn main() {
     }
 
     // ---- (P) plan_text_chunks stream
-    let n_p = if th { 2500 } else { 260 };
+    let n_p = if th { 4000 } else { 700 };
     for i in 0..n_p {
         let structured = i % 2 == 1;
         let approx = match rng.below(6) { 0 => rng.usize(1500, 2600), 1 => rng.usize(2400, 3000), _ => rng.usize(2400, if th { 15000 } else { 7000 }) };
